@@ -534,7 +534,11 @@ impl Rule {
     pub fn validate(&self) -> crate::Result<bool> {
         let mut errors = vec![];
         for test in &self.true_positives {
-            if !(solver::solve(&self.detection, test.as_mapping().unwrap())) {
+            let Some(document) = test.as_mapping() else {
+                errors.push(format!("true positive check is not a mapping '{:?}'", test));
+                continue;
+            };
+            if !(solver::solve(&self.detection, document)) {
                 errors.push(format!(
                     "failed to validate true positive check '{:?}'",
                     test
@@ -542,7 +546,11 @@ impl Rule {
             }
         }
         for test in &self.true_negatives {
-            if solver::solve(&self.detection, test.as_mapping().unwrap()) {
+            let Some(document) = test.as_mapping() else {
+                errors.push(format!("true negative check is not a mapping '{:?}'", test));
+                continue;
+            };
+            if solver::solve(&self.detection, document) {
                 errors.push(format!(
                     "failed to validate true negative check '{:?}'",
                     test
